@@ -26,13 +26,15 @@ for d in sys.argv[1:]:
         for p in props:
             rr = subprocess.run([os.path.join(VERIF, 'check'), p, '--repo', REPO], capture_output=True, text=True, cwd=VERIF)
             res[p] = rr.returncode
+            if rr.returncode == 1 and 'VIOLATION property=' not in rr.stdout:
+                res[p] = 3   # crashed check: neither alarm nor pass
             if rr.returncode != 0:
                 lines = [l for l in rr.stdout.split('\n') if l.startswith(('VIOLATION', 'UNDECIDED'))][:3]
                 res[p + '_why'] = lines
     finally:
         subprocess.run(['git', '-C', REPO, 'reset', '-q', '--hard'])
     alarms = [p for p in props if res.get(p) == 1]
-    und = [p for p in props if res.get(p) == 2]
+    und = [p for p in props if res.get(p) in (2, 3)]
     target = os.path.basename(d).split('-')[0]
     verdict = 'CAUGHT' if alarms else ('UNDECIDED' if und else 'MISSED')
     print('%-8s %-9s alarms=%s undecided=%s' % (os.path.basename(d), verdict, ','.join(alarms), ','.join(und)))
